@@ -7,8 +7,12 @@ bd = repo + "/_build"
 r = subprocess.run(["cmake", "--build", bd, "-j16"], stdout=subprocess.PIPE, stderr=subprocess.STDOUT, text=True)
 if r.returncode != 0:
     print(r.stdout[-3000:]); print("BUILD FAILED"); sys.exit(2)
-r = subprocess.run(["ctest", "--test-dir", bd, "-j16", "--timeout", "900"], stdout=subprocess.PIPE, stderr=subprocess.STDOUT, text=True)
-passed = set(re.findall(r"Test\s+#\d+:\s+(\S+)\s+\.+\s+Passed", r.stdout))
+# the *_cmp tests diff the .out file written by their producer test and declare no dependency on it: run the producers first
+out = ""
+for sel in (["-E", "_cmp$"], ["-R", "_cmp$"]):
+    r = subprocess.run(["ctest", "--test-dir", bd, "-j8", "--timeout", "1800"] + sel, stdout=subprocess.PIPE, stderr=subprocess.STDOUT, text=True)
+    out += r.stdout
+passed = set(re.findall(r"Test\s+#\d+:\s+(\S+)\s+\.+\s+Passed", out))
 stable = [s.split("::")[0] for s in json.load(open("/root/.vp/BASELINE.json"))["stable_pass"]]
 bad = [s for s in stable if s not in passed]
 print("stable tests: %d, passed: %d, failing stable tests: %s" % (len(stable), len(stable) - len(bad), bad))
